@@ -17,6 +17,7 @@
 #include <algorithm>
 #include <chrono>
 #include <cmath>
+#include <exception>
 #include <functional>
 #include <iomanip>
 #include <limits>
@@ -585,6 +586,7 @@ namespace bloch::runtime {
                 m_gcThread.join();
         }
         runCycleCollector();
+        rethrowPendingDestructorError();
         // Ensure warnings appear before any normal echo output
         if (m_warnOnExit)
             warnUnmeasured();
@@ -1450,6 +1452,14 @@ namespace bloch::runtime {
         obj->fields.clear();
     }
 
+    void RuntimeEvaluator::rethrowPendingDestructorError() {
+        if (!m_pendingDestructorError)
+            return;
+        std::exception_ptr error = m_pendingDestructorError;
+        m_pendingDestructorError = nullptr;
+        std::rethrow_exception(error);
+    }
+
     void RuntimeEvaluator::runFieldInitialisers(RuntimeClass* cls,
                                                 const std::shared_ptr<Object>& obj) {
         if (!cls)
@@ -1703,6 +1713,7 @@ namespace bloch::runtime {
     void RuntimeEvaluator::exec(Statement* s) {
         if (m_gcRequested.load())
             runCycleCollector();
+        rethrowPendingDestructorError();
         if (!s)
             return;
         auto isTruthy = [](const Value& v) {
@@ -2363,8 +2374,33 @@ namespace bloch::runtime {
                                  "cannot instantiate static or abstract class '" + cls->name + "'");
             }
             auto deleter = [this](Object* obj) {
-                if (!m_tearingDown)
-                    destroyObject(obj, !obj->skipDestructor);
+                // Runs from shared_ptr's release path, which must not throw. An error raised
+                // by a user destructor is parked and rethrown by exec() at the next statement;
+                // the interpreter state the destructor left behind is unwound here.
+                if (!m_tearingDown) {
+                    const size_t scopeDepth = m_env.size();
+                    auto prevClass = m_currentClassCtx;
+                    bool prevStatic = m_inStaticContext;
+                    bool prevCtor = m_inConstructor;
+                    bool prevDtor = m_inDestructor;
+                    bool prevReturn = m_hasReturn;
+                    try {
+                        destroyObject(obj, !obj->skipDestructor);
+                    } catch (...) {
+                        if (!m_pendingDestructorError)
+                            m_pendingDestructorError = std::current_exception();
+                        while (m_env.size() > scopeDepth) {
+                            // Detach the scope first: freeing it may run further deleters.
+                            auto scope = std::move(m_env.back());
+                            m_env.pop_back();
+                        }
+                        m_currentClassCtx = prevClass;
+                        m_inStaticContext = prevStatic;
+                        m_inConstructor = prevCtor;
+                        m_inDestructor = prevDtor;
+                        m_hasReturn = prevReturn;
+                    }
+                }
                 delete obj;
             };
             auto obj = std::shared_ptr<Object>(new Object{}, deleter);
